@@ -2,11 +2,12 @@
 //  * every C-string argument in a heap block of exactly strlen+1 bytes (ASan sees any read past it),
 //  * a recording string allocator (exact-size malloc blocks; checks that each buffer comes back once, with its size),
 //  * an independent reference (std::string / libc) evaluated next to it.
-// Everything a scenario constructs -- arguments, results, temporaries, the collection of split, the three objects of an
-// operation sequence -- is a local of its branch in one(), i.e. it is DESTROYED before rec.paired() closes the recorded window:
+// Everything a scenario constructs -- arguments, results, temporaries, the collection of split, the four objects of an
+// operation sequence (three named ones and the result object, which is the object an operation returned) -- is a local of its branch in one(), i.e. it is DESTROYED before rec.paired() closes the recorded window:
 // the buffers still owned by result objects when the scenario ends are part of the pairing observation.
 // Observation: <value tokens> <reference agrees 0|1> <allocator pairing 0|1>
 #include <string>
+#include <memory>
 #include <vector>
 #include <map>
 #include <algorithm>
@@ -57,6 +58,13 @@ static std::string refPrintable(const std::string& a)
     }
     return r;
 }
+static std::string refOrdinal(unsigned n) { char b[32]; unsigned two = n % 100, d = n % 10; const char* sf = (two >= 11 && two <= 13) ? "th" : d == 1 ? "st" : d == 2 ? "nd" : d == 3 ? "rd" : "th"; snprintf(b, sizeof b, "%u%s", n, sf); return b; }
+static std::string refMasked(unsigned long v, unsigned long m, size_t bc) { size_t bits = bc > 8 ? 64 : bc * 8; std::string e; for (size_t i = 0; i < bits; i++) { size_t k = bits - 1 - i; e += ((m >> k) & 1) ? (((v >> k) & 1) ? '1' : '0') : 'x'; if (i % 8 == 7 && i != bits - 1) e += ' '; } return e; }
+static std::string refBinary(const unsigned char* p, size_t n) { std::string e; char b[8]; for (size_t i = 0; i < n; i++) { snprintf(b, sizeof b, i ? " %02X" : "%02X", p[i]); e += b; } return e; }
+static std::vector<std::string> refSplit(const std::string& A, char dc) { std::vector<std::string> e; size_t pos = 0; for (;;) { size_t f = A.find(dc, pos); if (f == std::string::npos) { if (pos < A.size()) e.push_back(A.substr(pos)); break; } e.push_back(A.substr(pos, f + 1 - pos)); pos = f + 1; } if (A.empty()) e.push_back(std::string()); return e; }
+static std::string le8(size_t n) { std::string r; for (int k = 0; k < 8; k++) r += (char)((n >> (8 * k)) & 0xff); return r; }
+// an object constructed DIRECTLY from the value f returns (C++17: the returned prvalue initialises the member, no copy)
+struct Holder { SimpleString s; template <class F> explicit Holder(F f) : s(f()) {} };
 static std::string listTok(const std::vector<std::string>& v) { std::string r = ":l " + hx(v.size()); for (auto& s : v) r += " " + hbytes(s.data(), s.size()); return r; }
 
 static void one(Toks& t, Out& o)
@@ -108,29 +116,71 @@ static void one(Toks& t, Out& o)
     else if (op == ":binary") { t.bytes(A); Raw a(A); SimpleString r = StringFromBinary(a.p, a.n); val = hs(r); std::string e; char b[8]; for (size_t i = 0; i < a.n; i++) { snprintf(b, sizeof b, i ? " %02X" : "%02X", a.p[i]); e += b; } ref = e == r.asCharString(); }
     else if (op == ":fmt") { t.bytes(A); t.bytes(B); Cs a(A), b(B); SimpleString r = StringFromFormat("%s%s", a.p, b.p); val = hs(r); ref = A + B == r.asCharString(); }
     else if (op == ":seq") {
-        // operation sequence on a pool of three objects: <nops> then ops
+        // operation sequence on three named objects obj[0..2] and the RESULT OBJECT obj[3] (= *R): <nops> then ops.
+        // R is the very object an operation returned: it is constructed directly from the returned value (Holder's member
+        // initialiser / the element of a live split collection -- no copy, no assignment in between), so whatever state the
+        // operation left in it (buffer size, slack behind the terminator) is what the next step works on.
         int n = t.n();
-        std::vector<std::string> refv(3);
+        std::vector<std::string> refv(4), log;
         {
             SimpleString obj[3];
+            std::unique_ptr<Holder> own = std::make_unique<Holder>([] { return SimpleString(); });
+            std::unique_ptr<SimpleStringCollection> col;
+            SimpleString* R = &own->s;
+            auto O = [&](int i) -> SimpleString& { return i == 3 ? *R : obj[i]; };
+            // the new R is built while the old one is still alive (it may be an argument), then the old one is destroyed
+            auto setR = [&](auto f) { std::unique_ptr<Holder> nw = std::make_unique<Holder>(f); own = std::move(nw); col.reset(); R = &own->s; };
             for (int k = 0; k < n; k++) {
                 std::string w = t.next();
-                if (w == ":set") { int i = t.n(); t.bytes(A); Cs a(A); obj[i] = SimpleString(a.p); refv[i] = A; }
-                else if (w == ":asg") { int i = t.n(), j = t.n(); obj[i] = obj[j]; refv[i] = refv[j]; }
-                else if (w == ":app") { int i = t.n(), j = t.n(); obj[i] += obj[j]; refv[i] = refv[i] + refv[j]; }
-                else if (w == ":appc") { int i = t.n(); t.bytes(A); Cs a(A); obj[i] += a.p; refv[i] += A; }
-                else if (w == ":low") { int i = t.n(), j = t.n(); obj[i] = obj[j].lowerCase(); refv[i] = lowered(refv[j]); }
-                else if (w == ":sub") { int i = t.n(), j = t.n(); size_t b = t.u(), m = t.u(); obj[i] = obj[j].subString(b, m); refv[i] = b >= refv[j].size() ? std::string() : refv[j].substr(b, m); }
-                else if (w == ":rc") { int i = t.n(); unsigned c1 = (unsigned)t.u(), c2 = (unsigned)t.u(); obj[i].replace((char)c1, (char)c2); std::replace(refv[i].begin(), refv[i].end(), (char)c1, (char)c2); refv[i] = refv[i].c_str(); }
-                else if (w == ":rs") { int i = t.n(); t.bytes(A); t.bytes(B); Cs a(A), b(B); obj[i].replace(a.p, b.p); refv[i] = refReplace(refv[i], A, B); }
-                else if (w == ":prt") { int i = t.n(), j = t.n(); obj[i] = obj[j].printable(); refv[i] = refPrintable(refv[j]); }
-                else if (w == ":pad") { int i = t.n(), j = t.n(); unsigned ch = (unsigned)t.u(); if (i != j) { SimpleString::padStringsToSameLength(obj[i], obj[j], (char)ch); std::string& x = refv[i]; std::string& y = refv[j]; if (x.size() < y.size()) x = std::string(y.size() - x.size(), (char)ch) + x; else y = std::string(x.size() - y.size(), (char)ch) + y; } }
-                else if (w == ":fmt") { int i = t.n(); t.bytes(A); t.bytes(B); Cs a(A), b(B); obj[i] = StringFromFormat("%s%s", a.p, b.p); refv[i] = A + B; }
-                else if (w == ":rep") { int i = t.n(); t.bytes(A); size_t m = t.u(); Cs a(A); obj[i] = SimpleString(a.p, m); std::string e; for (size_t q = 0; q < m; q++) e += A; refv[i] = e; }
-                else if (w == ":plus") { int i = t.n(), j = t.n(), l = t.n(); obj[i] = obj[j] + obj[l]; refv[i] = refv[j] + refv[l]; }
+                if (w == ":set") { int i = t.n(); t.bytes(A); Cs a(A); O(i) = SimpleString(a.p); refv[i] = A; }
+                else if (w == ":asg") { int i = t.n(), j = t.n(); O(i) = O(j); refv[i] = refv[j]; }
+                else if (w == ":app") { int i = t.n(), j = t.n(); O(i) += O(j); refv[i] = refv[i] + refv[j]; }
+                else if (w == ":appc") { int i = t.n(); t.bytes(A); Cs a(A); O(i) += a.p; refv[i] += A; }
+                else if (w == ":low") { int i = t.n(), j = t.n(); O(i) = O(j).lowerCase(); refv[i] = lowered(refv[j]); }
+                else if (w == ":sub") { int i = t.n(), j = t.n(); size_t b = t.u(), m = t.u(); O(i) = O(j).subString(b, m); refv[i] = b >= refv[j].size() ? std::string() : refv[j].substr(b, m); }
+                else if (w == ":rc") { int i = t.n(); unsigned c1 = (unsigned)t.u(), c2 = (unsigned)t.u(); O(i).replace((char)c1, (char)c2); std::replace(refv[i].begin(), refv[i].end(), (char)c1, (char)c2); refv[i] = refv[i].c_str(); }
+                else if (w == ":rs") { int i = t.n(); t.bytes(A); t.bytes(B); Cs a(A), b(B); O(i).replace(a.p, b.p); refv[i] = refReplace(refv[i], A, B); }
+                else if (w == ":prt") { int i = t.n(), j = t.n(); O(i) = O(j).printable(); refv[i] = refPrintable(refv[j]); }
+                else if (w == ":pad") { int i = t.n(), j = t.n(); unsigned ch = (unsigned)t.u(); if (i != j) { SimpleString::padStringsToSameLength(O(i), O(j), (char)ch); std::string& x = refv[i]; std::string& y = refv[j]; if (x.size() < y.size()) x = std::string(y.size() - x.size(), (char)ch) + x; else y = std::string(x.size() - y.size(), (char)ch) + y; } }
+                else if (w == ":fmt") { int i = t.n(); t.bytes(A); t.bytes(B); Cs a(A), b(B); O(i) = StringFromFormat("%s%s", a.p, b.p); refv[i] = A + B; }
+                else if (w == ":rep") { int i = t.n(); t.bytes(A); size_t m = t.u(); Cs a(A); O(i) = SimpleString(a.p, m); std::string e; for (size_t q = 0; q < m; q++) e += A; refv[i] = e; }
+                else if (w == ":plus") { int i = t.n(), j = t.n(), l = t.n(); O(i) = O(j) + O(l); refv[i] = refv[j] + refv[l]; }
+                // ---- producers of the result object
+                else if (w == ":rnew") { t.bytes(A); Cs a(A); setR([&] { return SimpleString(a.p); }); refv[3] = A; }
+                else if (w == ":rcopy") { int j = t.n(); std::string e = refv[j]; setR([&] { return SimpleString(O(j)); }); refv[3] = e; }
+                else if (w == ":rsub") { int j = t.n(); size_t b = t.u(), m = t.u(); std::string e = b >= refv[j].size() ? std::string() : refv[j].substr(b, m); setR([&] { return O(j).subString(b, m); }); refv[3] = e; }
+                else if (w == ":rsub1") { int j = t.n(); size_t b = t.u(); std::string e = b >= refv[j].size() ? std::string() : refv[j].substr(b); setR([&] { return O(j).subString(b); }); refv[3] = e; }
+                else if (w == ":rft") { int j = t.n(); unsigned c1 = (unsigned)t.u(), c2 = (unsigned)t.u(); const std::string& S = refv[j]; std::string e; size_t b = c1 ? S.find((char)c1) : std::string::npos; if (b != std::string::npos) { size_t en = c2 ? S.find((char)c2, b) : std::string::npos; e = en == std::string::npos ? S.substr(b) : S.substr(b, en - b); }
+                    setR([&] { return O(j).subStringFromTill((char)c1, (char)c2); }); refv[3] = e; }
+                else if (w == ":rlow") { int j = t.n(); std::string e = lowered(refv[j]); setR([&] { return O(j).lowerCase(); }); refv[3] = e; }
+                else if (w == ":rprt") { int j = t.n(); std::string e = refPrintable(refv[j]); setR([&] { return O(j).printable(); }); refv[3] = e; }
+                else if (w == ":rplus") { int j = t.n(), l = t.n(); std::string e = refv[j] + refv[l]; setR([&] { return O(j) + O(l); }); refv[3] = e; }
+                else if (w == ":rfmt") { t.bytes(A); t.bytes(B); Cs a(A), b(B); setR([&] { return StringFromFormat("%s%s", a.p, b.p); }); refv[3] = A + B; }
+                else if (w == ":rrep") { t.bytes(A); size_t m = t.u(); Cs a(A); setR([&] { return SimpleString(a.p, m); }); std::string e; for (size_t q = 0; q < m; q++) e += A; refv[3] = e; }
+                else if (w == ":rord") { unsigned v = (unsigned)t.u(); setR([&] { return StringFromOrdinalNumber(v); }); refv[3] = refOrdinal(v); }
+                else if (w == ":rmask") { unsigned long v = t.u(), m = t.u(); size_t bc = t.u(); setR([&] { return StringFromMaskedBits(v, m, bc); }); refv[3] = refMasked(v, m, bc); }
+                else if (w == ":rbin") { t.bytes(A); Raw a(A); setR([&] { return StringFromBinary(a.p, a.n); }); refv[3] = refBinary(a.p, a.n); }
+                else if (w == ":rsplit") { int j = t.n(); unsigned dc = (unsigned)t.u(); size_t el = t.u(); char ds[2] = { (char)dc, 0 };
+                    std::vector<std::string> e = refSplit(refv[j], (char)dc);
+                    std::unique_ptr<SimpleStringCollection> nc = std::make_unique<SimpleStringCollection>(); O(j).split(ds, *nc);
+                    col = std::move(nc); own.reset(); R = &(*col)[el];         // the element itself (the collection's out-of-range element when el >= size)
+                    refv[3] = el < e.size() ? e[el] : std::string(); }
+                // ---- observers: one log entry each
+                else if (w == ":size") { int i = t.n(); size_t sz = O(i).size(); bool em = O(i).isEmpty(); std::string e = le8(sz); e += (char)(em ? 1 : 0); log.push_back(e); ref = ref && sz == refv[i].size() && em == refv[i].empty(); }
+                else if (w == ":at") { int i = t.n(); size_t pos = t.u(); size_t q = pos % (refv[i].size() + 1); char c = O(i).at(q); log.push_back(std::string(1, c)); ref = ref && c == (q < refv[i].size() ? refv[i][q] : '\0'); }
+                else if (w == ":cmp") { int i = t.n(), j = t.n(); const SimpleString& x = O(i); const SimpleString& y = O(j); const std::string& ra = refv[i]; const std::string& rb = refv[j];
+                    bool eq = x == y, co = x.contains(y), st = x.startsWith(y), en = x.endsWith(y); size_t cn = x.count(y);
+                    std::string e; e += (char)eq; e += (char)co; e += (char)st; e += (char)en; e += le8(cn); log.push_back(e);
+                    size_t rn = 0; size_t pos = ra.find(rb, 0); while (pos != std::string::npos && pos < ra.size()) { rn++; pos = ra.find(rb, pos + 1); }
+                    ref = ref && eq == (ra == rb) && (x != y) == !eq && co == (ra.find(rb) != std::string::npos) && st == (ra.size() >= rb.size() && ra.compare(0, rb.size(), rb) == 0)
+                          && en == (ra.size() >= rb.size() && ra.compare(ra.size() - rb.size(), rb.size(), rb) == 0) && cn == rn; }
+                else if (w == ":cpb") { int i = t.n(); size_t dn = t.u(); unsigned char* d = (unsigned char*)malloc(dn ? dn : 1); memset(d, 0xCD, dn); O(i).copyToBuffer((char*)d, dn); log.push_back(std::string((char*)d, dn));
+                    if (dn) { size_t q = std::min(dn - 1, refv[i].size()); ref = ref && memcmp(d, refv[i].data(), q) == 0 && d[q] == 0; for (size_t z = q + 1; z < dn; z++) ref = ref && d[z] == 0xCD; } free(d); }
+                else if (w == ":find") { int i = t.n(); size_t st = t.u(); unsigned ch = (unsigned)t.u(); size_t r = O(i).findFrom(st, (char)ch); log.push_back(le8(r)); size_t e = (ch && st < refv[i].size()) ? refv[i].find((char)ch, st) : std::string::npos; ref = ref && r == e; }
                 else { fprintf(stderr, "bad seq op %s\n", w.c_str()); exit(3); }
             }
-            std::vector<std::string> v; for (int i = 0; i < 3; i++) { v.push_back(obj[i].asCharString()); ref = ref && v[i] == refv[i]; }
+            std::vector<std::string> v; for (int i = 0; i < 4; i++) { v.push_back(O(i).asCharString()); ref = ref && v[i] == refv[i]; }
+            for (auto& e : log) v.push_back(e);
             val = listTok(v);
         }
     }
